@@ -48,7 +48,23 @@ def export(spec, flavor, translations, ctx=None):
     buf = io.StringIO()
     with warnings.catch_warnings():
         warnings.simplefilter("ignore")
-        collection_to_genbank(as_container(colls, spec.get("container", "list")), buf, genbank_type=GenbankFlavor[flavor], update_translations=translations)
+        if spec.get("other_flavor_first"):
+            # the very same collection objects were exported in the other flavour, with translations, just before
+            collection_to_genbank(list(colls), io.StringIO(), genbank_type=GenbankFlavor["EUKARYOTIC" if flavor == "PROKARYOTIC" else "PROKARYOTIC"], update_translations=True)
+        if spec.get("target") == "path":
+            # the documented alternative to an open handle: a path
+            import os
+            import tempfile
+            path = os.path.join(tempfile.gettempdir(), "verif_c12_%d.gbk" % os.getpid())
+            try:
+                collection_to_genbank(as_container(colls, spec.get("container", "list")), path, genbank_type=GenbankFlavor[flavor], update_translations=translations)
+                with open(path) as fh:
+                    buf.write(fh.read())
+            finally:
+                if os.path.exists(path):
+                    os.remove(path)
+        else:
+            collection_to_genbank(as_container(colls, spec.get("container", "list")), buf, genbank_type=GenbankFlavor[flavor], update_translations=translations)
         if ctx is not None:
             buf2 = io.StringIO()
             collection_to_genbank(as_container(colls, spec.get("container", "list")), buf2, genbank_type=GenbankFlavor[flavor], update_translations=translations)
@@ -253,6 +269,8 @@ def check_genbank(spec, ctx):
 def strat_genbank(draw, tier="quick"):
     sp = draw(_one_record(""))
     sp["container"] = draw(st.sampled_from(["list", "list", "tuple", "generator", "iterator"]))
+    sp["target"] = draw(st.sampled_from(["handle", "handle", "path"]))
+    sp["other_flavor_first"] = draw(st.integers(0, 2)) == 0
     if draw(st.integers(0, 3)) == 0:
         # the collection sits on a sequence chunk that contains every member
         members_lo = min([t["exons"][0][0] for gn in sp["obj"]["genes"] for t in gn["transcripts"]] + [f["blocks"][0][0] for c in sp["obj"]["feature_collections"] for f in c["features"]])
